@@ -220,6 +220,8 @@ impl PathWorker for RunWithInferredLang {
       .collect::<Vec<_>>();
 
     let items = filter_file_pattern(path, lang, Some(&matcher), &sub_matchers)?;
+    #[cfg(ast_grep_verif)]
+    crate::verif::yield_point("parsed", path);
     let mut ret = Vec::with_capacity(items.len());
     let rewrite_str = self.arg.rewrite.as_ref();
 
@@ -313,6 +315,8 @@ impl PathWorker for RunWithSpecificLang {
       (None, vec![(lang, pattern.clone())])
     };
     let filtered = filter_file_pattern(path, path_lang, root_matcher, &sub_matchers)?;
+    #[cfg(ast_grep_verif)]
+    crate::verif::yield_point("parsed", path);
     let mut ret = Vec::with_capacity(filtered.len());
     for unit in filtered {
       let Some(processed) = match_one_file(processor, &unit, &self.rewrite)? else {
